@@ -1,0 +1,151 @@
+// Verification hooks (compiled only with the `verif_hooks` cargo feature).
+//
+// A process-global, optional `Hooks` object lets an external deterministic
+// simulator observe and steer the few sources of nondeterminism the wallet
+// has no trait seam for: persistence points (crash / failing write), wallet
+// lock acquisition (thread schedule), the wall clock and sleeping, and tuning
+// knobs. With no hooks installed every function below is a no-op / falls
+// through to the real behaviour.
+
+use chrono::{DateTime, Utc};
+use std::path::Path;
+use std::sync::{Arc, RwLock};
+use std::time::Duration;
+
+/// Events reported to the installed hooks
+#[derive(Debug, Clone)]
+pub enum Event {
+	/// An output record was written into a (not yet committed) batch.
+	/// (key id hex, mmr index, value, is_coinbase, status, commit)
+	OutputSaved {
+		/// key id
+		key_id: String,
+		/// mmr index
+		mmr_index: Option<u64>,
+		/// value
+		value: u64,
+		/// coinbase flag
+		is_coinbase: bool,
+		/// status as string
+		status: String,
+		/// commit
+		commit: Option<String>,
+	},
+	/// An output record was deleted in a (not yet committed) batch
+	OutputDeleted {
+		/// key id
+		key_id: String,
+		/// mmr index
+		mmr_index: Option<u64>,
+	},
+	/// A batch was committed
+	BatchCommitted,
+	/// A batch was opened
+	BatchOpened,
+}
+
+/// Interface implemented by the simulator
+pub trait Hooks: Send + Sync {
+	/// A named persistence point. `Err(msg)` makes the surrounding operation
+	/// return an injected I/O error. The implementation may also unwind
+	/// (simulated process death). `path` names the file just written, if any.
+	fn point(&self, name: &str, path: Option<&Path>) -> Result<(), String>;
+	/// About to acquire the wallet lock
+	fn lock_scope_enter(&self);
+	/// Wallet lock released
+	fn lock_scope_exit(&self);
+	/// Virtual clock; `None` means use the real clock
+	fn now(&self) -> Option<DateTime<Utc>>;
+	/// Virtual sleep; return false to fall back to a real sleep
+	fn sleep(&self, d: Duration) -> bool;
+	/// Tuning knob
+	fn knob(&self, name: &str, default: u64) -> u64;
+	/// Observation
+	fn observe(&self, ev: Event);
+}
+
+lazy_static! {
+	static ref HOOKS: RwLock<Option<Arc<dyn Hooks>>> = RwLock::new(None);
+}
+
+/// Install (or remove) the process-global hooks
+pub fn install(h: Option<Arc<dyn Hooks>>) {
+	*HOOKS.write().unwrap() = h;
+}
+
+fn get() -> Option<Arc<dyn Hooks>> {
+	HOOKS.read().unwrap().clone()
+}
+
+/// Named persistence point
+pub fn point(name: &str) -> Result<(), String> {
+	match get() {
+		Some(h) => h.point(name, None),
+		None => Ok(()),
+	}
+}
+
+/// Named persistence point after writing a file
+pub fn point_file(name: &str, path: &Path) -> Result<(), String> {
+	match get() {
+		Some(h) => h.point(name, Some(path)),
+		None => Ok(()),
+	}
+}
+
+/// Guard spanning one wallet-lock section: constructed before the lock is
+/// requested, dropped after it has been released.
+pub struct LockScope {
+	h: Option<Arc<dyn Hooks>>,
+}
+
+impl Drop for LockScope {
+	fn drop(&mut self) {
+		if let Some(h) = self.h.take() {
+			h.lock_scope_exit();
+		}
+	}
+}
+
+/// Enter a wallet-lock section
+pub fn lock_scope() -> LockScope {
+	let h = get();
+	if let Some(ref h) = h {
+		h.lock_scope_enter();
+	}
+	LockScope { h }
+}
+
+/// Current time (virtual if hooks are installed)
+pub fn now() -> DateTime<Utc> {
+	match get().and_then(|h| h.now()) {
+		Some(t) => t,
+		None => Utc::now(),
+	}
+}
+
+/// Sleep (virtual if hooks are installed)
+pub fn sleep(d: Duration) {
+	let handled = match get() {
+		Some(h) => h.sleep(d),
+		None => false,
+	};
+	if !handled {
+		std::thread::sleep(d);
+	}
+}
+
+/// Tuning knob
+pub fn knob(name: &str, default: u64) -> u64 {
+	match get() {
+		Some(h) => h.knob(name, default),
+		None => default,
+	}
+}
+
+/// Report an event
+pub fn observe(ev: Event) {
+	if let Some(h) = get() {
+		h.observe(ev);
+	}
+}
